@@ -3,7 +3,7 @@
    Fault sites of the model: a stream item RRaise (exception while evaluating the pattern or while constructing the Event),
    the [dev_fail]-th note_on / control / program_change call of the device raising, an action callback raising an
    Exception (CbExc) or StopIteration (CbStop). *)
-From Isobar Require Import Base.Prelude Sched.Model Sched.TimeProofs Sched.MergeProofs Sched.FaultProofs.
+From Isobar Require Import Base.Prelude Sched.Model Sched.TimeProofs Sched.MergeProofs Sched.FaultProofs Sched.RenameProofs Sched.TickFrame Sched.ReachProofs.
 
 (** * Tolerant mode: containment *)
 (* With ignore_exceptions, for EVERY state of the timeline (any number and order of tracks, any streams, any device
@@ -73,16 +73,42 @@ Theorem C17_all_ok : forall cfg ops tl, ignore_exc cfg = true -> stop_when_done 
 Proof. intros cfg ops tl T W. exact (tolerant_all_ok cfg ops T W tl). Qed.
 
 (* hence two joint runs that differ only in tracks other than i - e.g. the run with the failing track and the run in
-   which it was never scheduled - make the same calls for track i in every tick.  Proved for histories with the same
-   solo history for i (the failing track was scheduled after i, so that i has the same id in both runs). *)
-Theorem C17_same_as_without_partial : forall i pc pb cfg h h',
+   which it was never scheduled - make the same calls for track i in every tick.  The observed track is track i of h and
+   track i' of h' (leaving out a track scheduled BEFORE i shifts the id of i down by one; ids are the model's names for object
+   identities): its solo history in h' is its solo history in h with the name i replaced by i'. *)
+Theorem C17_same_as_without : forall i i' pc pb cfg h h',
+  uncoupled cfg = true -> hist_wf i pc pb 0 h = true -> hist_wf i' pc pb 0 h' = true ->
+  all_ticks_ok cfg tl0 h = true -> all_ticks_ok cfg tl0 h' = true ->
+  solo i' 0 h' = map (retarget i') (solo i 0 h) ->
+  map (filter (call_ok pc pb)) (tick_calls cfg tl0 h) = map (filter (call_ok pc pb)) (tick_calls cfg tl0 h').
+Proof. exact same_solo_renamed_same_calls. Qed.
+(* the instance i' = i (the other track was scheduled after i, so i has the same id in both runs) *)
+Theorem C17_same_as_without_same_id : forall i pc pb cfg h h',
   uncoupled cfg = true -> hist_wf i pc pb 0 h = true -> hist_wf i pc pb 0 h' = true ->
   all_ticks_ok cfg tl0 h = true -> all_ticks_ok cfg tl0 h' = true -> solo i 0 h = solo i 0 h' ->
   map (filter (call_ok pc pb)) (tick_calls cfg tl0 h) = map (filter (call_ok pc pb)) (tick_calls cfg tl0 h').
 Proof. exact same_solo_same_calls. Qed.
-(* FULL STATEMENT (not proved): the same for a failing track scheduled BEFORE i, where dropping it shifts the id of i by
-   one: tick_calls of [solo i 0 h] from [tl_at i] = tick_calls of [solo (i-1) 0 h'] from [tl_at (i-1)].  Missing: the
-   invariance of a solo run under renaming of its track id (ids are the model's names for object identities). *)
+(* the concrete case: [drop_track j 0 h] is the history h from which track j has been left out altogether - its schedule
+   call, every operation on it, and the ids of the tracks scheduled after it moved down by one.  For EVERY other track i,
+   scheduled before or after j, the calls of i are the same in both runs.  (all_ticks_ok of both follows from tolerance,
+   C17_all_ok.) *)
+Theorem C17_same_as_without_dropped : forall i j pc pb cfg h, j <> i ->
+  uncoupled cfg = true -> hist_wf i pc pb 0 h = true ->
+  all_ticks_ok cfg tl0 h = true -> all_ticks_ok cfg tl0 (drop_track j 0 h) = true ->
+  map (filter (call_ok pc pb)) (tick_calls cfg tl0 h) = map (filter (call_ok pc pb)) (tick_calls cfg tl0 (drop_track j 0 h)).
+Proof. exact same_calls_without. Qed.
+(* what makes it so: track ids are names.  For a strictly increasing renaming f of the ids that maps fresh ids to fresh ids
+   (commutes with successor from some n0 <= next_id on), EVERY operation on EVERY state - a tick with all its phases,
+   callbacks that operate on the timeline included - commutes with the renaming: same calls, same result, renamed state *)
+Theorem C17_ids_are_names : forall f : nat -> nat, (forall a b, (a < b)%nat -> (f a < f b)%nat) ->
+  forall n0, (forall m, (n0 <= m)%nat -> f (S m) = S (f m)) ->
+  forall cfg tl o, (n0 <= next_id tl)%nat ->
+  step (rn_cfg f cfg) (rn_tl f tl) (rn_op f o) = let '(tl', c, r) := step cfg tl o in (rn_tl f tl', c, r).
+Proof. exact rn_step. Qed.
+(* and the solo run of a track does not depend on the id it is given *)
+Theorem C17_solo_run_any_id : forall cfg i i' h, cb_noops cfg = true ->
+  tick_calls cfg (tl_at i') (map (retarget i') (solo i 0 h)) = tick_calls cfg (tl_at i) (solo i 0 h).
+Proof. exact solo_retarget. Qed.
 
 (* Device faults.  The device-call counter couples the tracks (which call is the j-th depends on everybody), so the
    statement is local: a turn - faulting or not - changes no other track's record (callbacks without operations); what it
@@ -147,6 +173,39 @@ Proof. exact callback_stop_ends_track. Qed.
 Theorem C17_ended_stream_is_silent : forall tr, t_stream tr = empty_stream -> fst (get_next_event tr) = GStop.
 Proof. exact empty_stream_stops. Qed.
 
+(** * Reachable states: the distinct-ids hypothesis of the per-turn theorems always holds *)
+(* [reachable cfg tl] (Sched/ReachProofs.v): tl is the empty timeline, or the state after any operation on a reachable
+   state, or - inside a tick - the state the loop over the tracks starts from ([tick_pre]) or the state after any turn.
+   The state after every history is reachable, and in every reachable state the track ids are distinct and below next_id. *)
+Theorem C17_history_reachable : forall cfg h, reachable cfg (run_state cfg tl0 h).
+Proof. exact history_reachable. Qed.
+Theorem C17_ids_distinct : forall cfg tl, reachable cfg tl ->
+  NoDup (map t_id (tracks tl)) /\ Forall (fun i => (i < next_id tl)%nat) (map t_id (tracks tl)).
+Proof. exact reachable_wf. Qed.
+Theorem C17_failing_track_removed_reachable : forall cfg tl id tr tr1 c n1, ignore_exc cfg = true -> reachable cfg tl ->
+  find_track id (tracks tl) = Some tr ->
+  track_tick_a cfg (now tl) tr (dev_calls tl) = (tr1, c, n1, TRaise) ->
+  let '(tl', c', ab) := tick_one cfg tl id in
+  ab = None /\ c' = c
+  /\ find_track id (tracks tl') = None
+  /\ (forall id', id' <> id -> find_track id' (tracks tl') = find_track id' (tracks tl))
+  /\ actions tl' = actions tl ++ release_actions tr1
+  /\ now tl' = now tl.
+Proof.
+  intros cfg tl id tr tr1 c n1 H R F. exact (fault_turn cfg H tl id tr tr1 c n1 F (proj1 (reachable_wf cfg tl R))).
+Qed.
+Theorem C17_callback_stop_reachable : forall cfg tl id tr tr1 c n1 cb, reachable cfg tl ->
+  find_track id (tracks tl) = Some tr ->
+  track_tick_a cfg (now tl) tr (dev_calls tl) = (tr1, c, n1, TCallback cb) ->
+  nth cb (cbs cfg) (CbNone, []) = (CbStop, []) -> t_offs tr1 = [] ->
+  let '(tl', _, ab) := tick_one cfg tl id in
+  ab = None /\
+  if t_rwd tr1 then find_track id (tracks tl') = None
+  else exists tr', find_track id (tracks tl') = Some tr' /\ t_finished tr' = true /\ t_stream tr' = empty_stream.
+Proof.
+  intros cfg tl id tr tr1 c n1 cb R F. exact (callback_stop_ends_track cfg tl id tr tr1 c n1 cb F (proj1 (reachable_wf cfg tl R))).
+Qed.
+
 (** * Non-vacuity *)
 (* track 0 (channel 0) plays two notes; track 1 (channel 1) raises on its second pull, on a tick on which track 0 and
    track 2 play too; track 2 (channel 2) calls a callback that raises an Exception, then plays on *)
@@ -172,6 +231,27 @@ Example C17_nonvacuous :
   /\ nth 2 (tick_calls (fx_cfg false) tl0 fx_h) [] = [CNoteOn 62 64 0]
   /\ now (run_state (fx_cfg false) tl0 fx_h) = 4.
 Proof. vm_compute. repeat split. Qed.
+
+(* the same history without the failing track 1: track 2 (scheduled AFTER the failing one) becomes track 1; without track 0:
+   both move down.  Hypotheses of C17_same_as_without_dropped hold for the observed track 2 (channel 2, callback 0) *)
+Example C17_same_as_without_nonvacuous :
+  drop_track 1 0 fx_h = [ nth 0 fx_h OTick; nth 2 fx_h OTick; OTick; OTick; OTick; OTick; OTick ]
+  /\ solo 1 0 (drop_track 1 0 fx_h) = map (retarget 1%nat) (solo 2 0 fx_h) /\ length (solo 2 0 fx_h) = 6%nat
+  /\ hist_wf 2 (fun c => c =? 2) (fun b => (b =? 0)%nat) 0 fx_h = true
+  /\ all_ticks_ok (fx_cfg true) tl0 (drop_track 1 0 fx_h) = true /\ all_ticks_ok (fx_cfg true) tl0 (drop_track 0 0 fx_h) = true
+  /\ map (filter (call_ok (fun c => c =? 2) (fun b => (b =? 0)%nat))) (tick_calls (fx_cfg true) tl0 (drop_track 1 0 fx_h))
+     = [[CCallback 0]; []; [CNoteOn 70 64 2]; [CNoteOff 70 2]; []]
+  /\ map snd (run (fx_cfg true) tl0 (drop_track 1 0 fx_h)) = [[0]; [0; 1]; [0; 1]; [0; 1]; [0; 1]; [0; 1]; []]%nat.
+Proof. vm_compute. repeat split. Qed.
+
+(* the state in which track 1 of fx_h faults - third tick, after the turn of track 0 - is reachable, and the turn of track 1 raises there *)
+Example C17_reachable_nonvacuous :
+  let tl := fst (fst (tick_one (fx_cfg true) (tick_pre (run_state (fx_cfg true) tl0 (firstn 5 fx_h))) 0)) in
+  reachable (fx_cfg true) tl /\
+  exists tr, find_track 1 (tracks tl) = Some tr /\ snd (track_tick_a (fx_cfg true) (now tl) tr (dev_calls tl)) = TRaise.
+Proof.
+  split; [apply R_turn, R_pre, history_reachable|]. eexists. split; vm_compute; reflexivity.
+Qed.
 
 (* StopIteration from a callback on a retained track (remove_when_done = false): finished, stream exhausted, silent *)
 Definition st_cfg : config := mkConfig 1 [(CbStop, [])] 0 0 false false None 8.
